@@ -242,8 +242,8 @@ namespace sim
         {
           if (op.op == "create")
             {
-              if (h == nullptr || !shared)
-                return;
+              if (h == nullptr || (!shared && op.note != "own"))
+                return; // client threads may only create and destroy handles that no other thread touches
               if (h->alive)
                 return; // slot in use: interpreted as a no-op
               Handle nh;
@@ -283,9 +283,18 @@ namespace sim
               *h = nh;
               r.status = 0;
             }
+          else if (op.op == "put")
+            {
+              // the file is rewritten between two operations (same path, other content)
+              if (!shared)
+                return;
+              auto it = s.files.find(op.name);
+              simfs::put(op.file, it == s.files.end() ? std::string() : it->second);
+              r.status = 0;
+            }
           else if (op.op == "destroy")
             {
-              if (h == nullptr || !h->alive || !shared)
+              if (h == nullptr || !h->alive || (!shared && op.note != "own"))
                 return;
               if (h->kind == "native")
                 delete h->native;
@@ -431,7 +440,7 @@ namespace sim
         {
           yield_point(SITE_OP);
           const Op &op = (*a->ops)[i];
-          if (op.op == "q3" || op.op == "q2" || op.op == "size" || op.op == "dist")
+          if (op.op == "q3" || op.op == "q2" || op.op == "size" || op.op == "dist" || ((op.op == "create" || op.op == "destroy") && op.note == "own"))
             run_op(*a->s, op, *a->handles, (*a->resp)[i], false);
         }
     }
@@ -1050,6 +1059,8 @@ namespace sim
     tsan_report_reset();
     for (const auto &f : s.files)
       simfs::put(f.first, f.second);
+    const unsigned long recycled_before = alloc_recycled();
+    alloc_recycle(s.alloc_recycle);
 
     int max_h = -1;
     for (const auto &o : s.ops)
@@ -1106,6 +1117,10 @@ namespace sim
         res.tsan_reports += tsan_report_count() - tsan_before;
       }
 
+    // the oracles below build reference worlds: they get memory of their own
+    alloc_recycle(0);
+    if (alloc_recycled() != recycled_before)
+      res.counters["blocks_recycled"] += static_cast<long>(alloc_recycled() - recycled_before);
     // destroy what the scenario left alive
     for (auto &h : handles)
       if (h.alive)
@@ -1266,6 +1281,8 @@ namespace sim
             res.counters["sched_points"] += r.sched.points;
             res.counters["sched_decisions"] += r.sched.decisions;
             res.counters["sched_switches"] += r.sched.switches;
+            if (r.sched.preemptions)
+              res.counters["sched_preemptions"] += r.sched.preemptions;
             res.counters["threads_created"] += r.threads_created;
             for (int si = 0; si < 8; ++si)
               res.counters["yield_site_" + std::to_string(si)] += r.sched.site_count[si];
@@ -1314,6 +1331,8 @@ namespace sim
         res.counters["sched_points"] += res.sched.points;
         res.counters["sched_decisions"] += res.sched.decisions;
         res.counters["sched_switches"] += res.sched.switches;
+        if (res.sched.preemptions)
+          res.counters["sched_preemptions"] += res.sched.preemptions;
         for (int si = 0; si < 8; ++si)
           res.counters["yield_site_" + std::to_string(si)] += res.sched.site_count[si];
         if (res.sched.deadlock)
